@@ -734,13 +734,15 @@ func main() {
 	r.Set("rule", fmt.Sprintf("real tx_pool.TxPool with AccountSlots %d, GlobalSlots %d, AccountQueue %d, GlobalQueue %d, PriceBump %d, journal off except for the journal token; "+
 		"3 senders with fixed keys (L submitted through AddLocal, A, B); tokens: nonce 0..3 x price {1,2,100} x {gas 30000, gas 60000 (fits the initial block gas limit 100000, not the lowered 50000)} plus value > balance, gas 200000 > block gas limit, "+
 		"prices 105/110 (bump boundary), wrong chain id, >128 KiB data, gas below intrinsic; exact duplicates arise by repeating a token; "+
-		"operations (%d in the full alphabet, %d in the reduced one, see initOps for the pruning rule): AddRemotesSync([t]), AddLocal(t), 2-element batches of both, head reset to a new state "+
-		"(sender's state nonce advanced to k, balance of a sender lowered to 100000, block gas limit lowered, unchanged state), SetGasPrice(1|2|100), journal save + stop + load into a new pool. "+
+		"operations (%d in the full alphabet, %d in the reduced one; the pruning rule is written next to reducedAlphabet in universe.go): AddRemotesSync([t]), AddLocal(t), 2-element batches of both, head reset to a new state "+
+		"(a sender's state nonce advanced to k, balance of a sender lowered to 100000, block gas limit lowered, unchanged state), SetGasPrice(1|2|100), journal save + stop + load into a new pool. "+
 		"main: breadth-first over all histories of length <= %d over the full alphabet, continued to length %d with the reduced alphabet from the states reachable over the reduced alphabet; "+
-		"seeded: from %d histories that fill the pool to GlobalSlots+GlobalQueue, all continuations of length <= %d over the reduced alphabet. "+
+		"seeded: from %d histories that fill the pool to GlobalSlots+GlobalQueue (pool-full branch of add), all continuations of length <= %d over the reduced alphabet; "+
+		"coalesced rounds (%d: ordered pairs of 10 sub-batches x {no head change, A mined to 1 requested after both, A's balance lowered requested between them}): with a reorg run in flight and blocked on the pool lock, the locked sections of two submissions (addTxsLocked) and optionally a reset request execute, the real scheduleReorgLoop merges them into one run; executed as a last operation from every main state of depth <= %d (reduced-reachable states up to depth %d) and every seeded state of depth <= %d. "+
 		"A state is its shortest history; successor = fresh pool + replay + one operation; states are merged by key = Content() per sender + local set + gas price + chain state + heartbeat order; "+
-		"the oracle runs after every operation; transitions = operations judged on the real pool (the replayed prefixes are counted under op_executions)",
-		cfgAccountSlots, cfgGlobalSlots, cfgAccountQueue, cfgGlobalQueue, cfgPriceBump, nFull, nRed, fullDepth, maxDepth, len(seedHistories), seedDepth))
+		"the oracle runs after every operation; transitions = operations judged on the real pool (replayed prefixes are counted under op_executions)",
+		cfgAccountSlots, cfgGlobalSlots, cfgAccountQueue, cfgGlobalQueue, cfgPriceBump, nFull, nRed, fullDepth, maxDepth, len(seedHistories), seedDepth,
+		len(asyncOps), asyncAll-1, asyncRed-1, asyncSeed-1))
 	r.Assume(
 		"limits are read in the go-ethereum sense (DESIGN.md A.5) and only for the moment after a reorg run: SetGasPrice and rejected-before-the-lock submissions do not run one; the per-account queue cap is required only for non-local senders whose queue that run processed (senders of newly accepted transactions; after a head reset every sender, not counting transactions demoted from pending in that same run)",
 		"'local sender' is what Locals() reports; the price heap / SetGasPrice oracle uses the pool's own per-transaction local flag (lookup index halves) because AddLocal of a pending replacement marks the transaction but not the sender",
@@ -750,7 +752,8 @@ func main() {
 		"head changes are monotone (nonces only advance, balance and gas limit only drop) so that the chain-state space is finite; no reorg with an old head (transaction re-injection from dropped blocks) is driven",
 		"not owned: Go map iteration order inside the pool (victim choice in truncatePending among equal offenders, order of promotion and hence of heartbeats inside one reorg run). Invariants are checked on whatever outcome occurs; a replay that reaches another key than recorded is counted under nondeterministic_successors and explored as it is; the set of outcomes of such a transition is not exhausted",
 		"merged states have equal futures up to caches that are transparent when the pool is correct (see obs.key); time.Now heartbeats are monotone because operations are sequential",
-		"lifetime expiry (the eviction branch of the pool's timer loop) and asynchronous interleavings of submissions with the reorg loop are NOT covered by this check; a panic on one of the pool's own goroutines would terminate the checker instead of becoming a violation",
+		"a coalesced round is judged at its end (state invariants, global limits, nothing appears unaccepted, local senders' transactions disappear only when replaced or invalidated by the new chain state); its intermediate states are not observed",
+		"NOT covered: lifetime expiry (the eviction branch of the pool's timer loop cannot be reached without wall-clock waits); free-running goroutine interleavings under the race detector (only the coalescing interleavings above are driven, deterministically); re-injection of transactions from dropped blocks (reset with an old head). A panic on one of the pool's own goroutines would terminate the checker instead of becoming a violation",
 	)
 	r.Finish()
 }
